@@ -331,7 +331,7 @@ impl Check for C01 {
         "C01"
     }
     fn plan(&self, tier: Tier) -> Plan {
-        Plan { cases: if tier == Tier::Quick { 12_000 } else { 400_000 }, max_len: 8192 }
+        Plan { cases: if tier == Tier::Quick { 60_000 } else { 1_500_000 }, max_len: 8192 }
     }
     fn isolated(&self) -> bool {
         true
